@@ -48,7 +48,12 @@ def forall_n(n):
     return f
 
 
+def s_global_is(eng, name, obj):
+    return eng.module_globals.get((SL, name)) is obj
+
+
 def install_spec(eng):
+    eng.spec_funcs["global_is"] = s_global_is
     eng.spec_funcs["BIL"] = s_BIL
     eng.spec_funcs["LIN"] = s_LIN
     eng.spec_funcs["forall1"] = forall_n(1)
@@ -86,6 +91,11 @@ def sc_bilform_matrix(eng):
         eng.assume(N >= 1)
         eng.assume(M >= 1)
         eng.ghost["load_N"], eng.ghost["load_M"] = N, M
+        eng.externals["SELF_OP"] = slo
+        # another operator may have been constructed (and may have touched the module globals) before this call
+        other = Obj("SingleLayerOperator", {"__module__": SL}, label="other-operator")
+        for gname in ("__SL", "__elems_test", "__elems_trial"):
+            eng.module_globals[(SL, gname)] = other if gname == "__SL" else elem_seq("STALE_" + gname, z3.Int("n_stale"))
         if cache == 1:
             key = canonical_key(eng, slo, N, M, et, er)
             p, q = z3.Ints("p q")
@@ -157,6 +167,7 @@ def sc_mp_col(eng):
         et, er = elem_seq("ETEST", N), elem_seq("ETRIAL", M)
         slo = Obj("SingleLayerOperator", {"__module__": SL}, label="SL")
         eng.module_globals[(SL, "__SL")] = slo
+        eng.externals["SELF_OP"] = slo
         eng.module_globals[(SL, "__elems_test")] = et
         eng.module_globals[(SL, "__elems_trial")] = er
         j = z3.Int("j")
@@ -167,7 +178,8 @@ def sc_mp_col(eng):
 
 contracts.append(Contract(
     SL + ":MP_SL_matrix_col", props=["C17", "C04"], setup=sc_mp_col,
-    requires=[("index-in-range", "And(0 <= j, j < len(__elems_trial))")],
+    requires=[("index-in-range", "And(0 <= j, j < len(__elems_trial))"),
+              ("the worker's operator global is the operator whose matrix is being assembled", "global_is('__SL', SELF_OP)")],
     result=col_result,
     result_term=lambda eng, env: NArr(eng.module_globals[(SL, "__elems_test")].length,
                                       lambda p, eng=eng, env=env: BIL(eng.module_globals[(SL, "__elems_trial")].elem(env.lookup("j")).term,
